@@ -2,8 +2,14 @@ package props
 
 import (
 	"context"
+	"encoding/json"
 	"fmt"
+	"github.com/gorilla/websocket"
+	"net/http"
+	"net/http/httptest"
 	"strings"
+	"sync"
+	"sync/atomic"
 	"time"
 
 	jsonrpc "github.com/filecoin-project/go-jsonrpc"
@@ -81,6 +87,9 @@ func (c17) Plan(tier string, seed int64) []core.Scenario {
 	out = append(out, core.Sc("slowpeer").WithN("mb", 24))
 	// pings switched off: the read deadline alone has to notice a silent peer (shared with C03)
 	out = append(out, core.Sc("noping-blackhole").WithN("inflight", 1))
+	// a foreign peer that never answers our pings but sends pings of its own more often than the timeout:
+	// its pings are activity
+	out = append(out, core.Sc("pinging-peer").WithN("timeout_ms", 600), core.Sc("pinging-peer").WithN("timeout_ms", 900))
 	for i := range out {
 		out[i].Seed = seed*141650939 + int64(i)
 	}
@@ -91,6 +100,10 @@ func (p c17) Run(sc core.Scenario) core.Result {
 	r := core.NewR(sc)
 	if sc.Kind == "noping-blackhole" {
 		runNoPingBlackhole(sc, r)
+		return r.Result()
+	}
+	if sc.Kind == "pinging-peer" {
+		p.pingingPeer(sc, r)
 		return r.Result()
 	}
 	if sc.Kind == "slowpeer" {
@@ -372,4 +385,119 @@ func (c17) once(sc core.Scenario, scale int) (fails []core.Violation, key string
 	sample = map[string]interface{}{"client_ping": cfg[0].String(), "client_timeout": cfg[1].String(), "blackhole_at": []string{"idle", "call in flight", "subscription open", "application keeps calling", "in the middle of a response frame", "from the handshake of a re-established connection on, application keeps calling", "call in flight, peer unreachable for redials too"}[pt], "detected_after": time.Since(t0).String(), "scale": scale}
 	env.Svc.ReleaseAll()
 	return
+}
+
+// pingingPeer: the peer is a foreign websocket server that ignores our pings (never pongs) but sends a ping
+// every timeout/8 and answers requests. With ping interval < timeout/2 on our side the link is healthy by
+// the property's terms (peer pings count as activity): an idle stretch of 4x the timeout and a call answered
+// after 3x the timeout must leave the one connection in place. The margins are 8 peer pings per timeout.
+func (p c17) pingingPeer(sc core.Scenario, r *core.R) {
+	timeout := time.Duration(sc.I("timeout_ms")) * time.Millisecond
+	fails, inconcl := p.pingingPeerOnce(timeout)
+	confirmed := 0
+	if len(fails) > 0 {
+		// wall-clock verdict: believed only when it shows again three times out of three at doubled scale
+		for i := 0; i < 3; i++ {
+			if f, _ := p.pingingPeerOnce(2 * timeout); len(f) > 0 {
+				confirmed++
+			}
+		}
+		if confirmed == 3 {
+			for _, f := range fails {
+				r.Violate(f[0], "%s (shown again 3/3 at doubled scale)", f[1])
+			}
+		} else {
+			inconcl = fmt.Sprintf("a keepalive failure at timeout %v was not reproduced at doubled scale (%d/3): %s", timeout, confirmed, fails[0][1])
+		}
+	}
+	if inconcl != "" && len(fails) == 0 || (len(fails) > 0 && confirmed < 3) {
+		r.Inconclusive("%s", inconcl)
+	}
+	r.Key(fmt.Sprintf("pinging-peer timeout=%v", timeout), true)
+	r.Obs("executions", 1)
+	r.Sample(map[string]interface{}{"scenario": "foreign peer that pings but never pongs", "timeout_ms": sc.I("timeout_ms"), "failed_first_run": len(fails) > 0})
+}
+
+func (c17) pingingPeerOnce(timeout time.Duration) (fails [][2]string, inconclusive string) {
+	violate := func(fp, f string, a ...interface{}) { fails = append(fails, [2]string{fp, fmt.Sprintf(f, a...)}) }
+	var conns int64
+	up := websocket.Upgrader{}
+	ts := httptest.NewServer(http.HandlerFunc(func(w http.ResponseWriter, q *http.Request) {
+		c, err := up.Upgrade(w, q, nil)
+		if err != nil {
+			return
+		}
+		atomic.AddInt64(&conns, 1)
+		defer c.Close()
+		var wmu sync.Mutex
+		c.SetPingHandler(func(string) error { return nil }) // never pongs
+		stop := make(chan struct{})
+		defer close(stop)
+		go func() {
+			t := time.NewTicker(timeout / 8)
+			defer t.Stop()
+			for {
+				select {
+				case <-stop:
+					return
+				case <-t.C:
+					wmu.Lock()
+					c.WriteControl(websocket.PingMessage, []byte("peer"), time.Now().Add(time.Second))
+					wmu.Unlock()
+				}
+			}
+		}()
+		for {
+			_, msg, err := c.ReadMessage()
+			if err != nil {
+				return
+			}
+			var rq struct {
+				ID     json.RawMessage   `json:"id"`
+				Method string            `json:"method"`
+				Params []json.RawMessage `json:"params"`
+			}
+			if json.Unmarshal(msg, &rq) != nil || rq.ID == nil || len(rq.Params) < 1 {
+				continue
+			}
+			var tok string
+			json.Unmarshal(rq.Params[0], &tok)
+			go func() {
+				if strings.HasPrefix(tok, "Tslow") {
+					time.Sleep(3 * timeout)
+				}
+				wmu.Lock()
+				c.WriteMessage(websocket.TextMessage, []byte(fmt.Sprintf(`{"jsonrpc":"2.0","id":%s,"result":%q}`, rq.ID, svc.Reply(tok))))
+				wmu.Unlock()
+			}()
+		}
+	}))
+	defer ts.Close()
+	var cl Client
+	closer, err := jsonrpc.NewMergeClient(context.Background(), "ws://"+ts.Listener.Addr().String(), "S", []interface{}{&cl.Client}, nil,
+		jsonrpc.WithPingInterval(timeout/5), jsonrpc.WithTimeout(timeout), jsonrpc.WithReconnectBackoff(5*time.Millisecond, 20*time.Millisecond))
+	if err != nil {
+		return nil, fmt.Sprintf("client: %v", err)
+	}
+	defer closer()
+	bg := context.Background()
+	w := Tok("w")
+	if v, err := cl.Echo(bg, w, ""); err != nil || v != svc.Reply(w) {
+		return nil, fmt.Sprintf("warm-up call failed: %v", err)
+	}
+	time.Sleep(4 * timeout) // idle: only the peer's pings arrive
+	if n := atomic.LoadInt64(&conns); n != 1 {
+		violate("healthy-link-dropped", "peer pinging every timeout/8 (and not answering our pings): %d connections after an idle stretch of 4x the timeout (%v)", n, timeout)
+	}
+	st := "Tslow" + Tok("x")
+	o := Go(st, func() (string, error) { return cl.Echo(bg, st, "") })
+	if !o.Wait(3*timeout + core.Grace) {
+		violate("long-call-failed", "a call answered after 3x the timeout by a peer that keeps pinging never returned")
+	} else if o.Err != nil || o.Val != svc.Reply(st) {
+		violate("long-call-failed", "a call answered after 3x the timeout (%v) by a peer that keeps pinging returned (%q, %v)", timeout, core.Trunc(o.Val, 40), o.Err)
+	}
+	if n := atomic.LoadInt64(&conns); n != 1 {
+		violate("healthy-link-dropped", "peer pinging every timeout/8: %d connections at the end (timeout %v)", n, timeout)
+	}
+	return fails, ""
 }
